@@ -131,12 +131,13 @@ class ChainDomain(ListDomain):
             return nd["is_d"]
         # a stored value (or the value argument) compared with a constant: the caller may have stored any pointer pattern,
         # including the all-ones one that doubles as lookup's not-found marker - both outcomes are explored, consistently per path
-        pair = (a, b) if a[0] in ("value", "vparam") else (b, a)
-        if pair[0][0] in ("value", "vparam") and pair[1][0] in ("int", "null"):
+        pair = (a, b) if a[0] in ("value", "vparam", "kparam") else (b, a)
+        # (likewise the searched key: NULL is an ordinary key of this table - both outcomes of a NULL test of it are explored)
+        if pair[0][0] in ("value", "vparam", "kparam") and pair[1][0] in ("int", "null"):
             k_ = (pair[0], pair[1])
             if k_ not in self.nod:
                 self.nod[k_] = I.ch.choose(["differs from %s" % (pair[1][1] if pair[1][0] == "int" else "NULL"), "equals %s" % (pair[1][1] if pair[1][0] == "int" else "NULL")],
-                                           "%s" % (("the value stored in n%d" % pair[0][1]) if pair[0][0] == "value" else "the value argument")) == 1
+                                           "%s" % (("the value stored in n%d" % pair[0][1]) if pair[0][0] == "value" else ("the value argument" if pair[0][0] == "vparam" else "the searched key"))) == 1
             return self.nod[k_]
         raise AnalysisBroken("shape: line %d: comparison of %r and %r" % (ln, a, b))
 
